@@ -388,3 +388,41 @@ func inflate() []corpus.Seed {
 	}
 	return out
 }
+
+// shortLarge: every box type once with a 64-bit size header and only the first
+// 0..12 bytes of its payload (sizes consistent): minimum-length guards written
+// against the total size instead of the payload length let these through.
+func shortLarge() []corpus.Seed {
+	var out []corpus.Seed
+	best := map[string]*corpus.Seed{}
+	for i := range cor.Boxes {
+		b := &cor.Boxes[i]
+		if cur := best[b.Type]; cur == nil || len(b.Data) < len(cur.Data) {
+			best[b.Type] = b
+		}
+	}
+	var types []string
+	for t := range best {
+		types = append(types, t)
+	}
+	sort.Strings(types)
+	for _, t := range types {
+		sd := best[t]
+		if len(sd.Data) < 8 {
+			continue
+		}
+		pl := sd.Data[8:]
+		if sd.Data[3] == 1 && sd.Data[0] == 0 && sd.Data[1] == 0 && sd.Data[2] == 0 && len(sd.Data) >= 16 {
+			pl = sd.Data[16:]
+		}
+		for k := 0; k <= 12 && k <= len(pl); k++ {
+			d := make([]byte, 16+k)
+			d[3] = 1
+			copy(d[4:8], sd.Data[4:8])
+			d[15] = byte(16 + k)
+			copy(d[16:], pl[:k])
+			out = append(out, corpus.Seed{Name: fmt.Sprintf("%s#largesize-header,payload[:%d]", sd.Name, k), Kind: "crafted", Type: t, Data: d})
+		}
+	}
+	return out
+}
